@@ -627,6 +627,11 @@ def op_evolve(w, s):
                                                      f"stepper using the library's own coefficients by {e1:.3e}", sig=f"evolve.layer1:{method}")
     if judged:
         bound, why = scheme_bound(c, ec, x, method, imag, e.kind, split_exact)
+        if method in ("ps", "ps2") and bound is not None and split_exact is False:
+            # second-order splitting away from the exactness condition: the constant grows with the number of split terms (sites)
+            bound += max(0.0, 0.15 * len(src) - PS_ORDER_CONST) * x ** 3
+        if method in ("vmf", "mu_vmf") and bound is not None and worst < 1.0:
+            bound, why = bound * max(1.0, 0.5 / max(worst, 1e-3)), why + f" x 0.5/(min kept Schmidt ratio {worst:.3g})"
         if method == "mu_cmf" and bound is not None and worst < 1.0:
             # the constant-mean-field error constant grows with the inverse of the smallest kept Schmidt value (the mean-field
             # equations contain the inverse reduced density matrix): measured 63 x^3 at a ratio of 0.011
